@@ -1014,24 +1014,19 @@ theorem Sparse.getItem_ints {S : Sparse α} {m : MArr α} (h : SRel S m) (parts 
   -- model side
   simp only [Sparse.getItem, hpl, ne_eq, not_true_eq_false, ↓reduceIte, hrw, hidx, bind, Except.bind]
   unfold Sparse.regionRead
-  have hparts : ∀ d, ((t.map fun (x : Nat) => RPart.int (x : Int)).getD d (.int 0)).isInt = true := by
-    intro d
-    simp only [List.getD_eq_getElem?_getD, List.getElem?_map]
-    cases t[d]? <;> rfl
-  have hlist : (List.range S.shape.length).any (fun d =>
-      match (t.map fun (x : Nat) => RPart.int (x : Int)).getD d (.int 0) with
-      | .list is => is.any (· ≥ S.shape.getD d 0)
-      | _ => false) = false := by
+  have hall : (t.map fun (x : Nat) => RPart.int (x : Int)).all RPart.isInt = true := by
+    rw [List.all_eq_true]
+    intro q hq
+    obtain ⟨x, _, rfl⟩ := List.mem_map.1 hq
+    rfl
+  have hlist : ((t.map fun (x : Nat) => RPart.int (x : Int)).zip S.shape).any (fun pe => pe.1.listBeyond pe.2) = false := by
     rw [List.any_eq_false]
-    intro d _
-    simp only [List.getD_eq_getElem?_getD, List.getElem?_map]
-    cases t[d]? <;> simp
-  have hkp : ((List.range S.shape.length).filter fun d =>
-      !((t.map fun (x : Nat) => RPart.int (x : Int)).getD d (.int 0)).isInt) = [] := by
-    rw [List.filter_eq_nil_iff]
-    intro d _
-    simp [hparts d]
-  simp only [hlist, Bool.false_eq_true, and_false, ↓reduceIte, hkp, List.isEmpty_nil]
+    intro pe hpe
+    have := (List.of_mem_zip (a := pe.1) (b := pe.2) hpe).1
+    obtain ⟨x, _, hx⟩ := List.mem_map.1 this
+    rw [← hx]
+    simp [RPart.listBeyond]
+  simp only [hlist, Bool.false_eq_true, and_false, ↓reduceIte, hall]
   have hloc : (if S.subs.isEmpty then [] else S.subdims (t.map fun x => [x])) =
       (List.range S.subs.length).filter fun k => S.subs.getD k [] == t := by
     split
